@@ -68,6 +68,7 @@ type Engine struct {
 	recInfo     map[*ssa.Function]*recInfo
 	recBuilding map[*ssa.Function]*recInfo
 	epochTime   map[int]string
+	curInstr    ssa.Instruction
 }
 
 // recInfo describes the SMT definition of a recursive spec function.
@@ -84,7 +85,10 @@ type loopFrame struct {
 	wild  map[string]bool
 }
 
-func (e *Engine) recStore(st *State, heap string, base T) {
+func (e *Engine) recStore(st *State, heap string, base T) { e.recStoreIf(st, heap, base, tTrue) }
+
+// recStoreIf: the write happens only when cond holds.
+func (e *Engine) recStoreIf(st *State, heap string, base T, cond T) {
 	if e.collect != nil {
 		e.collect.bases[heap] = append(e.collect.bases[heap], base)
 	}
@@ -106,7 +110,7 @@ func (e *Engine) recStore(st *State, heap string, base T) {
 			for _, b := range bases {
 				goal = fmt.Sprintf("(or %s (= %s %s))", goal, base.S, b)
 			}
-			e.oblige(st, "loop-frame", fmt.Sprintf("loop%d:%s", e.loops(f.fn).ordinal[head], heap), T{goal, sBool}, token.NoPos)
+			e.oblige(st, "loop-frame", fmt.Sprintf("loop%d:%s", e.loops(f.fn).ordinal[head], heap), tImp(cond, T{goal, sBool}), token.NoPos)
 		}
 	}
 }
@@ -121,7 +125,19 @@ func (e *Engine) recWild(heap string) {
 type engineError struct{ msg string }
 
 func (e *Engine) unsupported(format string, args ...interface{}) {
-	panic(engineError{fmt.Sprintf(format, args...)})
+	msg := fmt.Sprintf(format, args...)
+	if e.curInstr != nil {
+		pos := ""
+		if e.curInstr.Pos().IsValid() {
+			pos = " at " + shortPath(e.P.Fset.Position(e.curInstr.Pos()).String())
+		}
+		fn := ""
+		if e.curInstr.Parent() != nil {
+			fn = " in " + e.curInstr.Parent().Name()
+		}
+		msg += fmt.Sprintf(" [instruction %q%s%s]", e.curInstr.String(), fn, pos)
+	}
+	panic(engineError{msg})
 }
 
 // NewEngine creates an engine for program p.
@@ -495,7 +511,66 @@ func (e *Engine) newFrame(fn *ssa.Function, caller *Frame) *Frame {
 	return f
 }
 
-func (e *Engine) subst(t types.Type) types.Type { return t }
+// subst replaces type parameters by the type arguments of the innermost frame that binds
+// them (generic spec functions evaluated for an instantiated callee).
+func (e *Engine) subst(t types.Type) types.Type {
+	if t == nil {
+		return t
+	}
+	var m map[*types.TypeParam]types.Type
+	for f := e.cur; f != nil; f = f.caller {
+		if f.tsubst != nil {
+			m = f.tsubst
+			break
+		}
+	}
+	if m == nil {
+		return t
+	}
+	return substType(t, m)
+}
+
+func substType(t types.Type, m map[*types.TypeParam]types.Type) types.Type {
+	switch x := t.(type) {
+	case *types.TypeParam:
+		if r, ok := m[x]; ok {
+			return r
+		}
+		// match by name and index (type parameters of generated spec functions are distinct objects)
+		for tp, r := range m {
+			if tp.Obj().Name() == x.Obj().Name() && tp.Index() == x.Index() {
+				return r
+			}
+		}
+		return t
+	case *types.Pointer:
+		return types.NewPointer(substType(x.Elem(), m))
+	case *types.Slice:
+		return types.NewSlice(substType(x.Elem(), m))
+	case *types.Array:
+		return types.NewArray(substType(x.Elem(), m), x.Len())
+	case *types.Map:
+		return types.NewMap(substType(x.Key(), m), substType(x.Elem(), m))
+	case *types.Named:
+		if x.TypeArgs() != nil && x.TypeArgs().Len() > 0 {
+			var args []types.Type
+			changed := false
+			for i := 0; i < x.TypeArgs().Len(); i++ {
+				a := substType(x.TypeArgs().At(i), m)
+				if a != x.TypeArgs().At(i) {
+					changed = true
+				}
+				args = append(args, a)
+			}
+			if changed {
+				if inst, err := types.Instantiate(nil, x.Origin(), args, false); err == nil {
+					return inst
+				}
+			}
+		}
+	}
+	return t
+}
 
 // ---------------------------------------------------------------------------------------------
 // Type ids (dynamic types of interface values)
